@@ -9,6 +9,8 @@ VAR_VALUES = {
     "float": [0.0, 0.5, -1.5, 2.0, 1.0],
     "list": [[], [1], [1, 2], ["a"], [[1], [2]], [[1], [3]], [{"a": 1}], [{"a": 2}]],
     "dict": [{}, {"a": 1}, {"a": 2}, {"b": 1}, {"a": 1, "b": 2}, {"w": {"x": 1}}, {"w": {"x": 2}}, {"w": [1, 2]}, {"w": [1, 3]}],
+    # a plain dict given as a list of pairs (the insertion order is part of the value; replay files sort mapping keys)
+    "pdict": [[["a", 1], ["b", 2]], [["b", 2], ["a", 1]], [["a", 1]], [["b", 2], ["a", 1], ["c", 3]], [["c", 3], ["a", 1], ["b", 2]]],
     "bool": [True, False],
     "none": [None],
     "tuple": [[], [1], [1, 2], ["a", 1]],
@@ -29,7 +31,7 @@ def nested_partner(value):
     return None
 
 
-CONSERVATIVE_KINDS = ["int", "str", "float", "list", "dict"]
+CONSERVATIVE_KINDS = ["int", "str", "float", "list", "dict", "pdict"]
 ALL_KINDS = list(VAR_VALUES)
 
 # (values of different types that compare and hash equal - True / 1 / 1.0, False / 0 / 0.0 - are deliberate)
@@ -107,6 +109,9 @@ def _swarm_feat(cfg):
     f["rtcalls"] = cfg.random() < 0.6
     f["rec_builtin"] = cfg.random() < 0.4
     f["joins"] = cfg.random() < 0.4
+    f["ctext"] = cfg.random() < 0.3
+    f["threadkeeps"] = cfg.random() < 0.12
+    f["comps"] = cfg.random() < 0.15
     f["bshadows"] = cfg.random() < 0.12
     f["threads"] = cfg.random() < 0.2
     f["tmpl"] = cfg.random() < 0.15
@@ -227,7 +232,10 @@ def gen_program(rng, feat):
                 v = rng.choice(readable)
                 form = "direct" if vars_[v]["mod"] == f["mod"] else rng.choice(
                     [x for x in feat["varforms"] if x != "direct"] or ["from"])
-                f["body"].insert(rng.randrange(len(f["body"]) + 1), {"t": "var", "name": v, "form": form})
+                item = {"t": "var", "name": v, "form": form}
+                if vars_[v]["kind"] in ("dict", "pdict", "odict") and rng.random() < 0.4:
+                    item["keys"] = True         # the function looks at the order of the keys: list(V)
+                f["body"].insert(rng.randrange(len(f["body"]) + 1), item)
         if feat["ext"] and rng.random() < 0.3:
             f["body"].insert(rng.randrange(len(f["body"]) + 1), {"t": rng.choice(["ext", "extvar"])})
     if feat.get("shadows") and nm > 1:
@@ -241,6 +249,20 @@ def gen_program(rng, feat):
                 if cands:
                     f = funcs[rng.choice(cands)]
                     f["body"].insert(rng.randrange(len(f["body"]) + 1), {"t": "shadow", "name": v})
+    if feat.get("ctext"):
+        for fn in names:
+            if funcs[fn]["kind"] != "class":
+                funcs[fn]["ctext"] = 1
+    if feat.get("comps"):
+        for fn in names:
+            f = funcs[fn]
+            if f["kind"] == "class":
+                continue
+            free = [v for v in sorted(vars_) if vars_[v]["mod"] == f["mod"]
+                    and not any(it["t"] == "var" and it["name"] == v for it in f["body"])
+                    and not any(ir.default_var(d) == v for (_, d) in f["params"])]
+            if free and rng.random() < 0.4:
+                f["body"].insert(rng.randrange(len(f["body"]) + 1), {"t": "comp", "name": rng.choice(free)})
     if feat.get("bshadows"):
         # module-level helpers named like builtins, called by their bare name
         for fn in names:
@@ -260,6 +282,8 @@ def gen_program(rng, feat):
         if feat.get("threads"):
             _thread_loads(prog, rng)
     _fix_rt_refs(prog, rng, feat)
+    if feat.get("threadkeeps"):
+        _thread_keeps(prog, rng)
     if feat.get("pathspell"):
         # the same path written in another way (trailing / doubled / leading separator)
         for f in funcs.values():
@@ -286,6 +310,13 @@ def _thread_loads(prog, rng):
     for f in prog["funcs"].values():
         for it in f["body"]:
             if it["t"] == "load" and rng.random() < 0.4:
+                it["thread"] = True
+
+
+def _thread_keeps(prog, rng):
+    for f in prog["funcs"].values():
+        for it in f["body"]:
+            if it["t"] == "keep" and not it.get("multiline") and rng.random() < 0.3:
                 it["thread"] = True
 
 
